@@ -379,3 +379,18 @@ Proof.
   - exact tinv_prim_side.
   - intros c rev rf o T Ho. exact (tinv_walk c T rev rf o Ho).
 Qed.
+
+(* the invariants hold initially (ModuleOp([])), so the hypotheses of the theorems are satisfiable *)
+Lemma inv_empty_module : UInv empty_module /\ TInv empty_module.
+Proof.
+  split.
+  - split; unfold g_uses; simpl; intros; try contradiction. constructor.
+  - split.
+    + intros b o H. unfold g_bops in H. simpl in H. destruct (Nat.eqb b 0); simpl in H; contradiction.
+    + intros g b H. unfold g_blocks in H. simpl in H. destruct (Nat.eqb g 0) eqn:E; simpl in H; [|contradiction].
+      destruct H as [<-|[]]. apply Nat.eqb_eq in E. subst. reflexivity.
+    + intros p g H _. unfold g_regions in H. simpl in H. destruct (Nat.eqb p 0) eqn:E; simpl in H; [|contradiction].
+      destruct H as [<-|[]]. apply Nat.eqb_eq in E. subst. reflexivity.
+    + intros p g b o _ _ _ H. unfold g_bops in H. simpl in H. destruct (Nat.eqb b 0); simpl in H; contradiction.
+    + vm_compute. auto.
+Qed.
